@@ -282,6 +282,15 @@ def custodian(t, val) -> bool:
     raise ValueError(k)
 
 
+def scan_texts(text: str, texts: List[str]) -> List[str]:
+    """the texts the character-level scanner is corresponded on: every clause, the whole translation, and each clause
+    parenthesised / bracketed / followed by an operator at depth 0 and 1"""
+    out = list(texts) + [text]
+    for x in texts[:4]:
+        out += [f"({x})", f"[{x}] || y", f"{{'k': {x}}} ? a : b", f"f({x} && ({x}))"]
+    return out
+
+
 def deblank(text: str) -> str:
     """remove blanks outside string literals"""
     out, i = [], 0
@@ -468,6 +477,8 @@ class C18(Prop):
         ob: Dict[str, Any] = {}
         text, texts = self._rewrite(c)
         ob["text"], ob["clauses"] = text, texts
+        from xlate.c7n_to_cel import C7N_Rewriter
+        ob["scan"] = "".join("1" if C7N_Rewriter.top_level_logic(x) else "0" for x in scan_texts(text, texts))
         try:
             tree = self._parse(text)
             ob["tree"] = G.lark_to_obj(tree)
@@ -514,7 +525,7 @@ class C18(Prop):
             return f"EXC {type(ex).__name__}"
         self._extra[G._key(c)] = ob
         shown = (ob.get("values", "-") if c["kind"] == "bool" else "-") if ob["tree"] is not None else "parse-error"
-        return f"text={deblank(ob['text'])} | values={shown}"
+        return f"text={deblank(ob['text'])} | values={shown} | scan={ob['scan']}"
 
     # -- model ------------------------------------------------------------------------------------
     def model_line(self, c):
@@ -535,8 +546,12 @@ class C18(Prop):
             def clause_pexpr(leaf, it=it):
                 return pexpr_of(next(it))
             asg = []
+        ob = self._extra.get(G._key(c))
+        if ob is None:
+            return None
+        xs = "".join(" x" + x.encode("utf-8").hex() for x in scan_texts(ob["text"], ob["clauses"]))
         try:
-            return "F " + " ".join(enc_filter(t, clause_pexpr)) + " R" + ("".join(" " + a for a in asg))
+            return "F " + " ".join(enc_filter(t, clause_pexpr)) + " R" + ("".join(" " + a for a in asg)) + " X" + xs
         except Exception:
             return None
 
@@ -550,8 +565,12 @@ class C18(Prop):
             return "MODEL-DISAGREES parse(emit f) is not exprOf f"
         if c["kind"] == "bool" and f["values"] != f["denote"]:
             return "MODEL-DISAGREES evalBool (exprOf f) differs from c7nDenote"
+        if f.get("lexok") != "1":
+            return "MODEL-DISAGREES a clause token's text is outside lexOK (the hypothesis of scanner_text_eq_tokens)"
+        if f.get("thm") != "1":
+            return "MODEL-DISAGREES scanText (textOf ts) differs from scanTop ts"
         text = "".join(_tok_text(t) for t in f["toks"].split(" ")) if f["toks"] else ""
-        return f"text={text} | values={f['values'] if c['kind'] == 'bool' else '-'}"
+        return f"text={text} | values={f['values'] if c['kind'] == 'bool' else '-'} | scan={f['scan']}"
 
     # -- oracle -----------------------------------------------------------------------------------
     def oracle(self, c, out):
